@@ -10,6 +10,7 @@ package main
 import (
 	"fmt"
 	"go/token"
+	"sort"
 	"strconv"
 	"strings"
 )
@@ -736,4 +737,188 @@ func macroTailRule(w *World, r *Report, rule string) {
 		}
 	}
 	r.floor(rule, "operand positions checked in cond/and/or", n, 10)
+}
+
+// headerMacros loads the function and macro definitions of the embedded headers into a macro world.
+func headerMacros(w *World) (*macroWorld, map[string]string, error) {
+	files, err := w.lispFiles()
+	if err != nil {
+		return nil, nil, err
+	}
+	mw := &macroWorld{macros: map[string]*lfn{}}
+	where := map[string]string{}
+	root := &lenv{vars: map[string]interface{}{}}
+	for _, f := range files {
+		for _, form := range f.forms {
+			form.walk(func(s *sx) {
+				if s.head() == "def" && len(s.items) == 3 && s.items[1].kind == "sym" && s.items[2].head() == "fn" && len(s.items[2].items) >= 3 {
+					if _, dup := root.vars[s.items[1].text]; !dup {
+						root.vars[s.items[1].text] = &lfn{params: s.items[2].items[1], body: s.items[2].items[2:], env: root}
+					}
+				}
+				if s.head() == "defmacro" && len(s.items) == 3 && s.items[1].kind == "sym" && s.items[2].head() == "fn" && len(s.items[2].items) >= 3 {
+					mw.macros[s.items[1].text] = &lfn{params: s.items[2].items[1], body: s.items[2].items[2:], env: root}
+					where[s.items[1].text] = f.path + ":" + s.items[1].text
+				}
+			})
+		}
+	}
+	return mw, where, nil
+}
+
+// macroNeededRule: the names the embedded headers add to the vocabulary are function values unless they have to
+// be macros. A macro of fixed arity whose expansion evaluates each operand exactly once, unconditionally, in
+// operand order and before any call - and uses none of them any other way - does nothing a function could not do; as a macro it
+// still works when called by name, but handed to map/apply or returned from an expression it runs as the
+// expander and gives back the form instead of the value.
+func macroNeededRule(w *World, r *Report, rule string) {
+	r.rule(rule, "every macro of the embedded headers needs to be one: expanding it over opaque operands (symbolic expander, nothing is run) does not give a form that merely evaluates each operand once, unconditionally, in order and before any call is made - such a name is part of the function vocabulary and must stay a function value (usable through map, apply and as the result of an expression)")
+	mw, where, err := headerMacros(w)
+	if err != nil {
+		r.undecided(rule, nil, "lisp headers", token.NoPos, err.Error())
+		return
+	}
+	var names []string
+	for n := range mw.macros {
+		names = append(names, n)
+	}
+	sortStrings(names)
+	n := 0
+	for _, name := range names {
+		m := mw.macros[name]
+		fixed := m.params != nil && len(m.params.items) > 0
+		var ops []*sx
+		if m.params != nil {
+			for i, p := range m.params.items {
+				if p.kind != "sym" || p.text == "&" {
+					fixed = false
+				}
+				ops = append(ops, symSx(fmt.Sprintf("operand%d", i+1)))
+			}
+		}
+		n++
+		if !fixed {
+			r.addRaw(rule, where[name], "macro "+name, where[name], "discharged", "takes a variable number of operands (or none): its operands are forms it arranges")
+			continue
+		}
+		mw.steps, mw.gens = 0, 0
+		exp, err := mw.apply(m, ops)
+		es, _ := exp.(*sx)
+		if err != nil || es == nil {
+			r.addRaw(rule, where[name], "macro "+name, where[name], "discharged", "the expansion is computed from the operand forms (the symbolic expander cannot reduce it to one template): not a plain call")
+			continue
+		}
+		var order []string
+		early := false
+		other := map[string]bool{}
+		isOp := func(s string) bool { return strings.HasPrefix(s, "operand") }
+		var all func(s *sx)
+		all = func(s *sx) {
+			s.walk(func(d *sx) {
+				if d.kind == "sym" && isOp(d.text) {
+					other[d.text] = true
+				}
+			})
+		}
+		var walk func(s *sx)
+		walk = func(s *sx) {
+			switch s.kind {
+			case "sym":
+				if isOp(s.text) {
+					order = append(order, s.text)
+				}
+			case "vector":
+				for _, it := range s.items {
+					walk(it)
+				}
+			case "list":
+				if s.macro != "" && s.macro != "deref" {
+					all(s)
+					return
+				}
+				h := s.head()
+				_, isMacro := mw.macros[h]
+				switch {
+				case len(s.items) == 0:
+				case h == "if" && len(s.items) >= 2:
+					walk(s.items[1])
+					for _, it := range s.items[2:] {
+						all(it)
+					}
+				case h == "do":
+					for _, it := range s.items[1:] {
+						walk(it)
+					}
+				case h == "let" && len(s.items) >= 2 && (s.items[1].kind == "list" || s.items[1].kind == "vector"):
+					for i, it := range s.items[1].items {
+						if i%2 == 0 {
+							all(it)
+						} else {
+							walk(it)
+						}
+					}
+					for _, it := range s.items[2:] {
+						walk(it)
+					}
+				case isMacro || h == "quote" || h == "quasiquote" || h == "fn" || h == "try" || h == "catch" || h == "def" || h == "defmacro" || h == "macroexpand" || h == "unquote" || h == "splice-unquote":
+					all(s)
+				default:
+					for _, it := range s.items {
+						walk(it)
+					}
+					if len(order) < len(ops) {
+						early = true // a call is made before the last operand is evaluated: a function would evaluate the operands first
+					}
+				}
+			default:
+				all(s)
+			}
+		}
+		walk(es)
+		plain := len(order) == len(ops) && len(other) == 0 && !early
+		for i := range order {
+			if plain && order[i] != ops[i].text {
+				plain = false
+			}
+		}
+		if plain {
+			r.addRaw(rule, where[name], "macro "+name, where[name], "violated", "the expansion "+es.String()+" evaluates every operand exactly once, unconditionally and in order: the macro does what a function does, but as a value (through map, apply, or as the result of an operator expression) it returns the form instead of the result")
+		} else {
+			r.addRaw(rule, where[name], "macro "+name, where[name], "discharged", "an operand is used unevaluated, conditionally, repeatedly, out of order or after a call in "+cut(es.String(), 80))
+		}
+	}
+	r.floor(rule, "macros of the embedded headers", n, 5)
+}
+
+func sortStrings(s []string) { sort.Strings(s) }
+
+func cut(s string, n int) string {
+	if len([]rune(s)) > n {
+		return string([]rune(s)[:n]) + "…"
+	}
+	return s
+}
+
+// String renders a form for messages.
+func (s *sx) String() string {
+	if s == nil {
+		return "nil"
+	}
+	open, close := "(", ")"
+	switch s.kind {
+	case "list":
+	case "vector":
+		open, close = "[", "]"
+	case "map":
+		open, close = "{", "}"
+	case "set":
+		open, close = "#{", "}"
+	default:
+		return s.text
+	}
+	var parts []string
+	for _, it := range s.items {
+		parts = append(parts, it.String())
+	}
+	return open + strings.Join(parts, " ") + close
 }
